@@ -269,6 +269,9 @@ def shards(tier):
             if version == "v1" and opname in NO_V1:
                 continue
             out.append({"op": opname, "version": version, "tier": tier})
+    for version in ["v2c", "v3:authNoPriv:md5"]:
+        for opname in ("get", "multiset", "walk", "bulkwalk"):
+            out.append({"op": opname, "version": version, "tier": tier, "lib_log": "DEBUG"})
     for version in ["v2c@2038", "v1@2038", "v3:authNoPriv:md5@2038", "v2c@2106"]:
         for opname in ("get", "multiset", "bulkget", "walk", "bulkwalk"):
             if version.startswith("v1") and opname in NO_V1:
